@@ -17,6 +17,8 @@ import (
 	"sync"
 	"testing"
 	"time"
+
+	"github.com/valyala/bytebufferpool"
 )
 
 type c19Vec struct {
@@ -28,6 +30,7 @@ type c19Vec struct {
 	CbReset    bool     `json:"cbReset"`
 	HasTimeout bool     `json:"hasTimeout"`
 	Faults     []string `json:"faults"`
+	Limit      int      `json:"limit"` // MaxResponseBodySize for this replay
 	Allowed    []int    `json:"allowed"`  // allowed transmission counts
 	Outcomes   []string `json:"outcomes"` // allowed error classes
 }
@@ -64,9 +67,40 @@ func c19Run(v *c19Vec, reqTimeout time.Duration) c19Obs {
 	if v.Method == "HEAD" {
 		okBody = "HTTP/1.1 200 OK\r\nContent-Length: 2\r\n\r\n"
 	}
-	bigBody := "HTTP/1.1 200 OK\r\nContent-Length: 100\r\n\r\n" + strings.Repeat("x", 100)
-	if v.Method == "HEAD" {
-		bigBody = "HTTP/1.1 200 OK\r\nContent-Length: 100\r\n\r\n"
+	limit := v.Limit
+	if limit <= 0 {
+		limit = 16
+	}
+	// a complete answer whose body is longer than the limit, in the three framings
+	big := limit + 700
+	bigResp := func(framing string) (string, bool) {
+		switch framing {
+		case "oversizedChunked":
+			r := "HTTP/1.1 200 OK\r\nTransfer-Encoding: chunked\r\n\r\n"
+			if v.Method != "HEAD" {
+				for left := big; left > 0; {
+					n := 300
+					if n > left {
+						n = left
+					}
+					r += fmt.Sprintf("%x\r\n%s\r\n", n, strings.Repeat("x", n))
+					left -= n
+				}
+				r += "0\r\n\r\n"
+			}
+			return r, false
+		case "oversizedIdentity": // no Content-Length, not chunked: the body ends when the server closes
+			r := "HTTP/1.1 200 OK\r\nConnection: close\r\n\r\n"
+			if v.Method != "HEAD" {
+				r += strings.Repeat("x", big)
+			}
+			return r, true
+		}
+		r := "HTTP/1.1 200 OK\r\nContent-Length: " + fmt.Sprint(big) + "\r\n\r\n"
+		if v.Method != "HEAD" {
+			r += strings.Repeat("x", big)
+		}
+		return r, false
 	}
 	dial := func(addr string) (net.Conn, error) {
 		mu.Lock()
@@ -88,8 +122,14 @@ func c19Run(v *c19Vec, reqTimeout time.Duration) c19Obs {
 			c.onReq = func(c *c18Conn, _ []byte) { c.srvClose() }
 		case "readTimeout":
 			c.fastTimeout = !v.HasTimeout // under a request deadline the read really lasts until the deadline
-		case "oversizedBody":
-			c.onReq = func(c *c18Conn, _ []byte) { c.push([]byte(bigBody)) }
+		case "oversizedCL", "oversizedChunked", "oversizedIdentity":
+			r, closeAfter := bigResp(f)
+			c.onReq = func(c *c18Conn, _ []byte) {
+				c.push([]byte(r))
+				if closeAfter {
+					c.srvClose()
+				}
+			}
 		default:
 			c.onReq = func(c *c18Conn, _ []byte) { c.push([]byte(okBody)) }
 		}
@@ -98,7 +138,7 @@ func c19Run(v *c19Vec, reqTimeout time.Duration) c19Obs {
 	}
 	cbCalls := 0
 	hc := &HostClient{Addr: "c19.test:80", Dial: dial, MaxConns: 16, MaxIdemponentCallAttempts: v.MaxAtt,
-		MaxResponseBodySize: 16}
+		MaxResponseBodySize: limit}
 	if !v.HasTimeout {
 		hc.ReadTimeout = 200 * time.Millisecond // only so that a read deadline exists; timeouts are injected at once
 	}
@@ -124,9 +164,12 @@ func c19Run(v *c19Vec, reqTimeout time.Duration) c19Obs {
 		hc.RetryIf = func(*Request) bool { return !v.CbRetry }
 	}
 	req := AcquireRequest()
-	resp := AcquireResponse()
 	defer ReleaseRequest(req)
-	defer ReleaseResponse(resp)
+	// a response whose body buffer is fresh (as on first use), so that where MaxResponseBodySize lies
+	// relative to the buffer the body is read into is determined by the vector, not by pool history
+	resp := &Response{}
+	resp.body = &bytebufferpool.ByteBuffer{}
+	resp.keepBodyBuffer = true
 	req.Header.SetMethod(v.Method)
 	req.SetRequestURI("http://c19.test/p")
 	if v.Stream {
@@ -249,8 +292,8 @@ func TestVerifC19Retry(t *testing.T) {
 				retried += tries
 				first := n <= 3
 				mu.Unlock()
-				desc := fmt.Sprintf("%s stream=%v max=%d cb=%s/%v/%v timeout=%v faults=%s", v.Method, v.Stream, v.MaxAtt,
-					v.Cb, v.CbRetry, v.CbReset, v.HasTimeout, strings.Join(v.Faults, ","))
+				desc := fmt.Sprintf("%s stream=%v max=%d cb=%s/%v/%v timeout=%v limit=%d faults=%s", v.Method, v.Stream, v.MaxAtt,
+					v.Cb, v.CbRetry, v.CbReset, v.HasTimeout, v.Limit, strings.Join(v.Faults, ","))
 				if !ok {
 					what := "transmissions"
 					if c19In(v.Allowed, o.trans) {
